@@ -10,9 +10,11 @@
                  has a red child                                   (Inductive in RBBalance.v)
 
    NOT proved in this file (clauses of the property statement handled elsewhere):
-   * "parent links consistent with child links": the functional model has no parent pointers;
-     this clause is checked on the real code after every operation by the in-package walker
-     of the C02 correspondence check (checks/c02.py), not by a theorem.
+   * "parent links consistent with child links": the recursive model has no parent pointers;
+     the clause is proved in props/C02_ptr.v (parent_links_consistent) about the pointer-level
+     model RBPtrModel.v, a literal transcription of the Go code which ptr_refines_rec proves
+     equal to the recursive model for every history; the walker of checks/c02.py additionally
+     checks it on the real code after every operation.
    * "keys strictly ascending in-order": proved in props/C01.v (it needs the comparator laws;
      balance does not).
    * that [cmp_calls] is the number of comparator invocations the Go code makes per
